@@ -11,6 +11,7 @@ import (
 	"encoding/binary"
 	"encoding/json"
 	"fmt"
+	"math/big"
 	"os"
 	"path/filepath"
 	"sort"
@@ -250,6 +251,12 @@ func c01Alphabet(w *stdWorld, full bool) []dgCase {
 		for l := 0; l <= 79; l++ {
 			out = append(out, dgCase{fmt.Sprintf("valid B report cut to %d bytes", l), valid[:l], ""})
 		}
+		// algebraic variants of the genuine signature (r, s): the high-s twin (r, N-s)
+		// verifies under textbook ECDSA and needs no key to compute; also s+N is
+		// impossible in 32 bytes, so r/s zeroed and r,s exchanged stand in for the rest.
+		for _, v := range sigVariants(valid) {
+			out = append(out, dgCase{"valid B report with signature variant " + v.name, v.b, "signature-variant/" + v.name})
+		}
 		// field swaps
 		sw := append([]byte(nil), valid...)
 		copy(sw[0:4], valid[4:8])
@@ -276,6 +283,10 @@ func c01Alphabet(w *stdWorld, full bool) []dgCase {
 		out = append(out, dgCase{"200 bytes, valid leading 80", append(append([]byte(nil), valid...), bytes.Repeat([]byte{0xCD}, 120)...), ""})
 		out = append(out, dgCase{"81 bytes, valid leading 80 (replay)", append(append([]byte(nil), valid...), 0), ""})
 		out = append(out, dgCase{"80 bytes exact (replay)", valid, ""})
+		// the same variants once the genuine report is stored: a twin would now count as a second report
+		for _, v := range sigVariants(valid) {
+			out = append(out, dgCase{"stored B report re-sent with signature variant " + v.name, v.b, "signature-variant-after-store/" + v.name})
+		}
 	}
 	return out
 }
@@ -512,3 +523,33 @@ func firstLine(s string) string {
 }
 
 var _ = binary.LittleEndian
+
+type namedBytes struct {
+	name string
+	b    []byte
+}
+
+var secpN, _ = new(big.Int).SetString("fffffffffffffffffffffffffffffffebaaedce6af48a03bbfd25e8cd0364141", 16)
+
+// sigVariants derives datagrams whose signature is algebraically related to
+// the genuine one.
+func sigVariants(valid []byte) []namedBytes {
+	mk := func(name string, r, sv []byte) namedBytes {
+		b := append([]byte(nil), valid...)
+		copy(b[16:48], r)
+		copy(b[48:80], sv)
+		return namedBytes{name, b}
+	}
+	r := valid[16:48]
+	sb := valid[48:80]
+	twin := new(big.Int).Sub(secpN, new(big.Int).SetBytes(sb)).FillBytes(make([]byte, 32))
+	rneg := new(big.Int).Sub(secpN, new(big.Int).SetBytes(r)).FillBytes(make([]byte, 32))
+	zero := make([]byte, 32)
+	return []namedBytes{
+		mk("high-s-twin", r, twin),
+		mk("negated-r", rneg, sb),
+		mk("negated-r-and-s", rneg, twin),
+		mk("s-zero", r, zero),
+		mk("r-zero", zero, sb),
+	}
+}
